@@ -86,6 +86,9 @@ MUTANTS = [
 ]
 
 EXTRA_PRELUDE = {
+    # two cooperating sites: the stack leaks on the error path AND the dispatcher takes the bottom entry
+    "c18-handlers-stack-not-popped-on-error": ("pdpy11/reports.py", "    handler = handle_reports.handlers_stack[-1]\n",
+                                               "    handler = handle_reports.handlers_stack[0]\n"),
     "c18-symbols-class-attribute": ("pdpy11/compiler.py", "class Compiler:\n", "class Compiler:\n    _shared = CaseInsensitiveDict()\n"),
 }
 
